@@ -26,7 +26,8 @@ def run(tier):
     if tier == "thorough":
         cfgs = cfgs[2:] + [
             dict(kind="named:light", n=3, cfg=dict(CFG), hidden=True, d=3, persistent=P2, assertions=0, judge="c18", extra=extra_q),
-            dict(kind="named:light", n=4, cfg=dict(CFG), hidden=True, d=2, persistent=P2, assertions=1, judge="c18", extra=extra),
+            dict(kind="named:light", n=4, cfg=dict(CFG), hidden=True, d=1, persistent=P2, assertions=1, judge="c18", extra=extra),
+            dict(kind="named:light", n=4, cfg=dict(CFG), hidden=False, d=2, persistent=P2, assertions=0, judge="c18", extra=extra),
             dict(kind="named:light", n=4, cfg=dict(CFG, extras=False), hidden=False, d=0, assertions=0, judge="c18", extra=extra_q),
             dict(kind="named:light", n=5, cfg=dict(CFG, extras=False, L=3), hidden=False, d=1, persistent=P2, assertions=0, judge="c18", extra=extra),
         ]
